@@ -73,14 +73,26 @@ TokenText(input, tk, useNumber) ==
       [] tk.k = "false" -> Ascii("bool false")
       [] tk.k = "null" -> Ascii("<nil> <nil>")
 
+\* 0.d1..dk * 10^n with n >= 310 is beyond the largest float64; n = 309 is decided by the digits
+\* (1.797...e308) and left to the pairwise comparison (Trace_V1!Modelled keeps such inputs out)
+NumTooLarge(input, tk) == tk.k = "num" /\ LET nf == Normal(SubSeq(input, tk.s + 1, tk.e)) IN nf.d # <<>> /\ nf.n >= 310
+NumBorderline(input, tk) == tk.k = "num" /\ LET nf == Normal(SubSeq(input, tk.s + 1, tk.e)) IN nf.d # <<>> /\ nf.n = 309
+
 \* one call: [next state, ok, text] (text: prefix of the rendering; for More ok is the answer)
 SCall(input, toks, st, op, useNumber) ==
     IF op = "Token" THEN
          IF st.i < Len(toks)
-         THEN [st |-> [i |-> st.i + 1, off |-> toks[st.i + 1].e], ok |-> TRUE, text |-> TokenText(input, toks[st.i + 1], useNumber)]
-         ELSE [st |-> [st EXCEPT !.off = SkipWS(input, st.off) - 1], ok |-> FALSE, text |-> <<>>]
+         \* a number becomes a float64 unless UseNumber is set: one that is too large is an error
+         \* (the value is consumed all the same)
+         THEN [st |-> [i |-> st.i + 1, off |-> toks[st.i + 1].e],
+               ok |-> ~(~useNumber /\ NumTooLarge(input, toks[st.i + 1])),
+               text |-> TokenText(input, toks[st.i + 1], useNumber)]
+         \* (white space is passed over only when something follows it: looking ahead at the end
+         \* of the input leaves the read position where it was)
+         ELSE [st |-> st, ok |-> FALSE, text |-> <<>>]
     ELSE IF op = "More" THEN
          LET p == SkipWS(input, st.off) IN
-         [st |-> [st EXCEPT !.off = p - 1], ok |-> p <= Len(input) /\ input[p] \notin {93, 125}, text |-> <<>>]
+         [st |-> IF p <= Len(input) THEN [st EXCEPT !.off = p - 1] ELSE st,
+          ok |-> p <= Len(input) /\ input[p] \notin {93, 125}, text |-> <<>>]
     ELSE [st |-> st, ok |-> TRUE, text |-> NatChars(st.off)]
 =============================================================================
